@@ -31,9 +31,13 @@ def make_dae():
     from scipy.sparse import csc_array
     from Solverz.num_api.num_eqn import nDAE
     M = csc_array((np.array([1.0]), (np.array([0]), np.array([0]))), shape=(2, 2))
-    F = lambda t, y, p: np.array([-p["k"][0] * y[0] ** 3 + y[1] + np.cos(t), y[1] - np.sin(y[0])])
+    from Solverz.equation.param import TimeSeriesParam
+    # as in generated code, a time-series parameter stays an object in the mapping and is read with get_v_t(t); `u` writes its series
+    # into element 1 of a vector parameter, element 0 is read from the stored value at every call
+    F = lambda t, y, p: np.array([-p["k"][0] * y[0] ** 3 + y[1] + np.cos(t) + 0.1 * np.sum(p["u"].get_v_t(t)), y[1] - np.sin(y[0])])
     J = lambda t, y, p: csc_array(np.array([[-3 * p["k"][0] * y[0] ** 2, 1.0], [-np.cos(y[0]), 1.0]]))
-    return nDAE(M, F, J, {"k": np.array([1.0])})
+    return nDAE(M, F, J, {"k": np.array([1.0]),
+                          "u": TimeSeriesParam("u", v_series=[1.0, 3.0, 2.0], time_series=[-2.0, 1.0, 4.0], value=[0.5, 1.0], index=[1])})
 
 
 def make_ae():
@@ -62,6 +66,11 @@ def opt_values(rng):
                 facmax=float(rng.choice([6, 2, 3])), fac2=float(rng.choice([6, 4])),
                 scheme=str(rng.choice(["rodas4", "rodasp", "rodas5p"])), ite_tol=float(rng.choice([1e-5, 1e-8, 1e-10])),
                 step_size=float(rng.choice([0.05, 0.1, 0.02])), max_it=int(rng.choice([100, 50])))
+
+
+def p_snapshot(pv):
+    """value of a parameter-mapping entry as the caller sees it (a parameter object's stored value, or the array itself)"""
+    return np.array(pv.v if hasattr(pv, "get_v_t") else pv, dtype=float, copy=True)
 
 
 def res_digest(sol):
@@ -107,6 +116,8 @@ def run(rep, tier, seed):
     }
     factories = dict(dae=make_dae, ae=make_ae, fdae=make_fdae)
     starts = dict(dae=np.array([0.5, np.sin(0.5) + 0.2]), ae=np.array([1.0, -1.0]), fdae=np.array([1.0]))
+    import inspect
+    opt_fields = set(inspect.signature(Opt.__init__).parameters) - {"self"}
     nhist = 20 if tier == "quick" else 200
     fails, hist_samples, ncalls = [], [], 0
     for h in range(nhist):
@@ -153,7 +164,11 @@ def run(rep, tier, seed):
             # parameter change by the caller between calls
             if rng.random() < 0.3:
                 for pk in shared_model[kind].p:
-                    shared_model[kind].p[pk] = shared_model[kind].p[pk] * float(rng.choice([1.0, 2.0, 0.5]))
+                    fct = float(rng.choice([1.0, 2.0, 0.5]))
+                    if hasattr(shared_model[kind].p[pk], "get_v_t"):
+                        shared_model[kind].p[pk].v = shared_model[kind].p[pk].v * fct
+                    else:
+                        shared_model[kind].p[pk] = shared_model[kind].p[pk] * fct
             step = dict(solver=name, opt={k2: (None if v2 is None else (v2 if isinstance(v2, (str, int)) else float(v2))) for k2, v2 in vals.items()},
                         tspan=[float(x) for x in tspan], y0_is_vars=use_vars, terminal_event_at=step_event)
             history.append(step)
@@ -163,7 +178,7 @@ def run(rep, tier, seed):
             y_obj = shared_y0[kind]
             y_before = (y_obj.array if use_vars else y_obj).copy()
             ts_before = copy.deepcopy(tspan)
-            p_before = {pk: np.array(pv, copy=True) for pk, pv in shared_model[kind].p.items()}
+            p_before = {pk: p_snapshot(pv) for pk, pv in shared_model[kind].p.items()}
             try:
                 sol = quiet(call, shared_model[kind], tspan, y_obj, shared_opt)
                 d1 = res_digest(sol)
@@ -181,13 +196,19 @@ def run(rep, tier, seed):
             if not np.array_equal(np.asarray(ts_before), np.asarray(tspan)):
                 fails.append((case, f"{name} modified the caller's tspan"))
             for pk in p_before:
-                if not np.array_equal(p_before[pk], shared_model[kind].p[pk]):
-                    fails.append((case, f"{name} modified the caller's parameter mapping entry {pk}"))
+                if not np.array_equal(p_before[pk], p_snapshot(shared_model[kind].p[pk])):
+                    fails.append((case, f"{name} modified the caller's parameter mapping entry {pk}: stored value {p_before[pk]} -> "
+                                        f"{p_snapshot(shared_model[kind].p[pk])}"))
             # fresh objects of equal values
             fresh_model = factories[kind]()
             for pk in p_before:
-                fresh_model.p[pk] = p_before[pk].copy()
-            fresh_opt = Opt(**{k2: v2 for k2, v2 in opt_before.items()})
+                if hasattr(fresh_model.p[pk], "get_v_t"):
+                    fresh_model.p[pk].v = p_before[pk].copy()
+                else:
+                    fresh_model.p[pk] = p_before[pk].copy()
+            # a fresh option object of equal *option values* (the constructor's fields; anything else a solver may have left on the
+            # shared object is not a value the caller set)
+            fresh_opt = Opt(**{k2: v2 for k2, v2 in opt_before.items() if k2 in opt_fields})
             if use_vars:
                 a = Address()
                 for nm, ln in zip(y_obj.a.object_list, y_obj.a.length_array):
